@@ -774,11 +774,21 @@ func (ServicesData) analyze(httpSvc *expr.HTTPServiceExpr) *ServiceData {
 			name = fmt.Sprintf("Build%sRequest", method.VarName)
 			s := codegen.NewNameScope()
 			s.Unique("c") // 'c' is reserved as the client's receiver name.
+			// reserve the names of the arguments and local variables of
+			// the request builder ("p" cannot be: tests pin its use)
+			for _, n := range []string{"ctx", "v", "ok", "u", "req", "err", "body", "rd", "scheme"} {
+				s.Unique(n)
+			}
 			for _, ca := range routes[0].PathInit.ClientArgs {
 				if ca.FieldName != "" {
-					ca.VarName = s.Unique(ca.VarName)
-					ca.Ref = ca.VarName
-					args = append(args, ca)
+					// do not rename the arguments of the path function
+					// whose code has already been rendered
+					arg := *ca
+					data := *ca.AttributeData
+					arg.AttributeData = &data
+					arg.VarName = s.Unique(ca.VarName)
+					arg.Ref = arg.VarName
+					args = append(args, &arg)
 				}
 			}
 			pkg = pkgWithDefault(method.PayloadLoc, svc.PkgName)
@@ -1016,7 +1026,7 @@ func buildPayloadData(e *expr.HTTPEndpointExpr, sd *ServiceData) *PayloadData {
 				name = n
 				fieldName = codegen.Goify(name, true)
 			}
-			varn := codegen.Goify(name, false)
+			varn := httpVarName(name)
 			mapQueryParam = &ParamData{
 				MapQueryParams: e.MapQueryParams,
 				Map:            expr.AsMap(payload.Type) != nil,
@@ -1386,11 +1396,11 @@ func buildPayloadData(e *expr.HTTPEndpointExpr, sd *ServiceData) *PayloadData {
 	}
 	if init == nil {
 		if o := expr.AsObject(e.Params.Type); o != nil && len(*o) > 0 {
-			returnValue = codegen.Goify((*o)[0].Name, false)
+			returnValue = httpVarName((*o)[0].Name)
 		} else if o := expr.AsObject(e.Headers.Type); o != nil && len(*o) > 0 {
-			returnValue = codegen.Goify((*o)[0].Name, false)
+			returnValue = httpVarName((*o)[0].Name)
 		} else if o := expr.AsObject(e.Cookies.Type); o != nil && len(*o) > 0 {
-			returnValue = codegen.Goify((*o)[0].Name, false)
+			returnValue = httpVarName((*o)[0].Name)
 		} else if e.MapQueryParams != nil && *e.MapQueryParams == "" {
 			returnValue = mapQueryParam.VarName
 		}
@@ -2260,6 +2270,25 @@ func buildResponseBodyType(body, att *expr.AttributeExpr, loc *codegen.Location,
 	}
 }
 
+// reservedVarNames lists the identifiers used by the code generated for the
+// HTTP request and response encoders, decoders and the type constructors.
+var reservedVarNames = map[string]struct{}{
+	"body": {}, "ctx": {}, "err": {}, "mux": {}, "ok": {}, "params": {}, "payload": {},
+	"r": {}, "req": {}, "res": {}, "resp": {}, "u": {}, "v": {}, "val": {}, "w": {},
+}
+
+// httpVarName returns the name of the Go variable that holds the value of the
+// HTTP path or query string parameter, header or cookie mapped to the
+// attribute with the given name. Names that would shadow an identifier used by
+// the generated code are suffixed with an underscore like Go keywords are.
+func httpVarName(name string) string {
+	varn := codegen.Goify(name, false)
+	if _, ok := reservedVarNames[varn]; ok {
+		varn += "_"
+	}
+	return varn
+}
+
 func extractPathParams(a *expr.MappedAttributeExpr, service *expr.AttributeExpr, scope *codegen.NameScope) []*ParamData {
 	var params []*ParamData
 	codegen.WalkMappedAttr(a, func(name, elem string, _ bool, c *expr.AttributeExpr) error { // nolint: errcheck
@@ -2271,7 +2300,7 @@ func extractPathParams(a *expr.MappedAttributeExpr, service *expr.AttributeExpr,
 
 		c = makeHTTPType(c)
 		var (
-			varn = scope.Name(codegen.Goify(name, false))
+			varn = scope.Name(httpVarName(name))
 			arr  = expr.AsArray(c.Type)
 			ctx  = serviceContext("", scope)
 			ft   = service.Type
@@ -2328,7 +2357,7 @@ func extractQueryParams(a *expr.MappedAttributeExpr, service *expr.AttributeExpr
 
 		c = makeHTTPType(c)
 		var (
-			varn    = scope.Name(codegen.Goify(name, false))
+			varn    = scope.Name(httpVarName(name))
 			arr     = expr.AsArray(c.Type)
 			mp      = expr.AsMap(c.Type)
 			typeRef = scope.GoTypeRef(c)
@@ -2400,7 +2429,7 @@ func extractHeaders(a *expr.MappedAttributeExpr, svcAtt *expr.AttributeExpr, svc
 
 		hattr = makeHTTPType(attr)
 		var (
-			varn    = scope.Name(codegen.Goify(name, false))
+			varn    = scope.Name(httpVarName(name))
 			arr     = expr.AsArray(hattr.Type)
 			typeRef = scope.GoTypeRef(hattr)
 			ft      = attr.Type
@@ -2456,7 +2485,7 @@ func extractCookies(a *expr.MappedAttributeExpr, svcAtt *expr.AttributeExpr, svc
 		}
 		hattr = makeHTTPType(hattr)
 		var (
-			varn    = scope.Name(codegen.Goify(name, false))
+			varn    = scope.Name(httpVarName(name))
 			typeRef = scope.GoTypeRef(hattr)
 			ft      = svcAtt.Type
 
